@@ -9,7 +9,7 @@ FUNCTIONS = [
     "batchie.data.Screen.plates / get_plate / Plate.plate_id",
 ]
 BOUNDS = {
-    "quick": "k symbolic and unbounded (k>=1); P<=5 single-sample plates over <=3 samples with a solver-chosen assignment, every observed pattern of one plate, symbolic scores (every allowed plate can be the minimum), selection histories run with the real select_next_plate until nothing is allowed",
+    "quick": "k symbolic and unbounded (k>=1); P<=5 single-sample plates over <=3 samples with a solver-chosen assignment, every observed pattern of one plate, symbolic scores (every allowed plate can be the minimum) held in ascending, descending or rotated plate-id order (P<=4), selection histories run with the real select_next_plate until nothing is allowed",
     "thorough": "P<=7 plates, 3 samples",
 }
 ASSUMPTIONS = [
@@ -26,7 +26,7 @@ def configs(tier, seed):
     q = tier == "quick"
     out = []
     for P in ((2, 3, 4, 5) if q else (2, 3, 4, 5, 6, 7)):
-        out.append(dict(name="histories P=%d" % P, h="hist", P=P, S=min(3, P)))
+        out.append(dict(name="histories P=%d" % P, h="hist", P=P, S=min(3, P), orders=P <= (4 if q else 5)))
     out.append(dict(name="multi-sample plate refused", h="multi"))
     return out
 
@@ -60,7 +60,10 @@ def h_hist(ctx, cfg):
     sample_of = {pid["p%d" % i]: smp[i] for i in range(P)}
     unobs = sorted(pid["p%d" % i] for i in range(P) if not mask[i])
     scores = sm.ChunkedScoresHolder(len(unobs))
-    for p in unobs:
+    # the holder's entries in ascending, descending or rotated plate-id order (chunk files may be combined in any order)
+    order = int(ctx.int("order", 0, 2)) if cfg.get("orders", True) and len(unobs) >= 2 else 0
+    seq = list(unobs) if order == 0 else list(unobs)[::-1] if order == 1 else list(unobs)[1:] + list(unobs)[:1]
+    for p in seq:
         scores.add_score(p, ctx.real("sc%d" % p))
     policy = kp.KPerSamplePlatePolicy(k)
     plates = {int(p.plate_id): p for p in screen.plates}
